@@ -39,7 +39,7 @@ theorem uf_read_within (m : Nat) (b : Bytes) (t : UInt8) (id : UInt16) :
   | oob => exact absurd h (by simp [InB])
 
 /-- The instrumented converter is the converter (erasing the depth), and on every byte string the
-    nesting of readUnknownField frames never exceeds maxRecursionDepth + 1 = 65: 64 frames that work and
+    nesting of readUnknownField frames never exceeds maxRecursionDepth + 1 = 66: 65 frames that work and
     one that only returns DEPTH_LIMIT. -/
 theorem uf_recDepth_le (b : Bytes) :
     (convertUFD b).2 = convertUF b ∧ (convertUFD b).1 ≤ Facts.ufMaxRecursionDepth + 1 :=
@@ -55,9 +55,9 @@ def deepStructs : Nat → Bytes
   | 0 => []
   | k+1 => [0x0c, 0, 1] ++ deepStructs k
 
--- the bound is reached: 70 nested struct headers drive the recursion to exactly 65 frames and DEPTH_LIMIT
+-- the bound is reached: 70 nested struct headers drive the recursion to exactly 66 frames and DEPTH_LIMIT
 set_option maxRecDepth 8000 in
-example : convertUFD (deepStructs 70) = (65, .err .depth) := by decide
+example : convertUFD (deepStructs 70) = (Facts.ufMaxRecursionDepth + 1, .err .depth) := by decide
 
 /-- a hostile type byte ≥ 0x80 and a truncated input are plain errors -/
 example : convertUF [0x80, 0, 1, 0] = .err .unktype := by decide
